@@ -82,6 +82,12 @@ def account_files(c, results, pid, what):
             if v["prop"] == pid:
                 c.violation(v["sig"], "%s [%s]" % (v["why"], json.dumps(r.get("desc"))[:300]),
                             {"kind": "file-hex", "hex": r.get("hex"), "desc": r.get("desc")})
+            elif v["prop"] == "SCAN" and pid == "C06" and not any(w["prop"] == "C06" for w in r["viol"]):
+                # the scanner cut the file differently from Scan.tla's prediction although every embedded
+                # stream's plaintext is in the container: C06 holds on this file, the model is out of date
+                c.defer_tool_error("the scanner's chunk list differs from the one Scan.tla predicts while every plaintext "
+                                   "is carried verbatim (%s) [%s]; the specification needs attention" % (
+                                       v["why"][:200], json.dumps(r.get("desc"))[:200]))
     c.cov["evaluations"] += n
     c.cov["distinct_nontrivial"] += len(nontrivial)
     c.cov.setdefault("cases", {})[what] = n
@@ -93,8 +99,25 @@ def validate_container_traces(c, pid, wd, trace):
     c.cov["traces_validated_against_impl"] += acc
     c.cov["states"] += states
     c.cov["transitions"] += states
+    outcome = {}
+    run = None
+    for ev in read_ndjson(trace):
+        if ev["e"] == "Reset":
+            run = ev.get("run")
+            outcome[run] = None
+        elif ev["e"] in ("ExpandErr", "Panic"):
+            outcome[run] = False
+        elif ev["e"] == "Recreate":
+            outcome[run] = ev.get("result") == "ok" and bool(ev.get("equal"))
     for x in rej:
         case = cases.get(x["run"], {})
+        if pid == "C01" and outcome.get(x["run"]) is True:
+            # the round trip of this file is exact; what Trace_Container objects to is the shape of the
+            # container (headers, thresholds, alternation): format drift, not a violation of C01
+            c.defer_tool_error("Trace_Container rejects run %s at %s although expand / recreate round-trips the file: "
+                               "the container no longer has the shape Chunks.tla describes; the specification needs "
+                               "attention" % (x["run"], json.dumps(x["event"])[:200]))
+            continue
         c.violation("trace:" + str(x["event"].get("e")),
                     "container trace rejected by Trace_Container at %s (run %s, %s)" % (
                         json.dumps(x["event"])[:200], x["run"], json.dumps(case.get("desc"))[:200]),
